@@ -1,6 +1,6 @@
 SPECIFICATION Spec
 CONSTANTS
-  NewLen = 5
+  NewLen = 3
   ErrLen = 1
   Cuts <- MCCuts
   Codes <- MCCodes
@@ -12,8 +12,8 @@ CONSTANTS
   PersistBeforeStatusCheck = FALSE
   TruncatedIsSuccess = FALSE
   SkipValidation = FALSE
-  FixedTempName = FALSE
+  FixedTempName = TRUE
   NoStaleFallback = FALSE
   AbortOnRefreshError = FALSE
-INVARIANTS TypeOK Atomic FailKeeps ChangeOnlyOnSuccess SuccessVisible SuccessIsComplete Recovers StartsAnyway FallsBack NoStuck EmitCase
+INVARIANTS Recovers
 CHECK_DEADLOCK FALSE
